@@ -2480,7 +2480,19 @@ def c17_doc_lines(r, n):
              "pp=[];pcc=[];pa=[];params=0;amts=[1|" + hx("channel-0") + "|4|" + hx("a\x00b") + "|" + hx("uusdc") + "|1|1];cnts=[]",
              "pp=[];pcc=[];pa=[];params=0;amts=[];cnts=[4|" + hx("a\x00b") + "|2|30|5]",
              "pp=[];pcc=[];pa=[];params=0;amts=[1|" + hx("channel-0") + "|4|" + hx("a:b") + "|" + hx("uusdc") + "|1|1];cnts=[1|" + hx("channel-0") + "|4|" + hx("a:b") + "|3]"]
-    for g in fixed + [gen_genesis(r) for _ in range(n)]:
+    # documents that leave a component section out, or spell it null (every non-empty subset, both spellings)
+    secs = ["adapter", "dispatcher", "forwarder", "executor"]
+    base = fixed[0]
+    import itertools
+    for k in range(1, 5):
+        for sub in itertools.combinations(secs, k):
+            fixed.append(base + ";omit=" + ",".join(sub))
+            fixed.append(base + ";nil=" + ",".join(sub))
+    fixed.append(base + ";omit=adapter;nil=executor")
+    docs = fixed + [gen_genesis(r) for _ in range(n)]
+    for i in range(n // 6):
+        docs.append(gen_genesis(r) + ";" + r.choice(["omit", "nil"]) + "=" + ",".join(r.shuffle(secs)[: r.range(1, 2)]))
+    for g in docs:
         lines.append("genvalidate " + g)
         lines.append("geninit " + g)
     return lines
@@ -2500,6 +2512,9 @@ def c17_doc_oracle(steps):
                 import re
                 parts = dict(x.split("=", 1) for x in g.split(";"))
                 items = lambda k: [x for x in parts[k][1:-1].split(",") if x]
+                if "omit" in parts or "nil" in parts:
+                    out.append((s.i, "validated-not-initialisable-missing-section: " + g[-60:]))
+                    continue
                 if len(set(items("pp"))) != len(items("pp")) or len(set(items("pcc"))) != len(items("pcc")) or len(set(items("pa"))) != len(items("pa")):
                     kind = "validated-not-initialisable-repeated-pause-entry"
                 elif "00" in g and any("00" in x for x in items("amts") + items("cnts")):
